@@ -265,7 +265,7 @@ _doc_common = dict(
     required=["kind:null", "kind:one", "kind:many", "kind:ident", "kind:idents", "kind:errors", "coll:resources",
               "coll:soft", "coll:wrapcol", "impl:soft", "impl:wrap", "included", "attrs-exposed", "rel-data:absent",
               "rel-data:null", "rel-data:one", "rel-data:many", "include:added", "include:skipped", "include:resources",
-              "member-with-wider-type", "served-a-narrower-request-before", "while-others-marshal", "dupname:ok"],
+              "member-with-wider-type", "served-a-narrower-request-before", "while-others-marshal", "dupname:ok", "primary-cannot-be-encoded"],
     assumptions=["fixed two-type schema (t1: 2 attributes, to-one, to-many; t2: attribute, to-one), soft or struct-backed",
                  "documents are generated by the driver (seeded), TLC judges every recorded document",
                  "attribute values are representatives from the value tables; ids, prefixes and meta come from small "
@@ -322,7 +322,7 @@ _url_common = dict(
     driver=lambda tier, seed, gen, out: ["url", "-gen", gen, "-out", out, "-seed", str(seed)] +
     _t(tier, ["-n", "3000", "-mut", "800"], ["-n", "400000", "-mut", "100000"]),
     trace=("Trace_URL", "Trace_URL.cfg"),
-    required=["url:ok", "url:err", "url:include-kept", "url:collection", "chain", "chain:special", "mutated", "stray-dot"],
+    required=["url:ok", "url:err", "url:include-kept", "url:collection", "chain", "chain:special", "mutated", "stray-dot", "chain:while-others-print"],
     assumptions=["fixed schema: ta (2 attributes, relationships r and rs - one a string prefix of the other - and t), tb, tc "
                  "without any field, and td whose relationship q has the name of tb's and another target; soft or struct-backed", "request tokens are obtained from generated text with net/url"],
     coverage=False,
